@@ -8,7 +8,7 @@ MODULE, PKG, BIN = "cesium", "./verifh/c04", "c04"
 COQ_IMPORTS = ("From Synnax Require Import Common.Base Cesium.Store Cesium.DeleteModel Cesium.GCModel "
                "Monitors.Mon_C04.")
 CASE_TYPE = "case_t"
-COUNTS = {"quick": 220, "thorough": 8000}
+COUNTS = {"quick": 220, "thorough": 2000}
 SHARD = 20
 MAXTS = 2 ** 63 - 1
 
